@@ -29,6 +29,8 @@ import (
 	"github.com/yandex/pandora/lib/monitoring"
 	"github.com/yandex/pandora/zverif/hutil"
 	"github.com/yandex/pandora/zverif/vs"
+	"go.uber.org/zap"
+	"go.uber.org/zap/zapcore"
 )
 
 // R19 is one scripted answer.
@@ -54,10 +56,11 @@ type C19Cell struct {
 	Shots    int         `json:"shots"`
 	DebugLog bool        `json:"debug"`
 	Trace    bool        `json:"trace,omitempty"` // httptrace.dump and httptrace.trace switched on
+	AnswLog  bool        `json:"answlog,omitempty"` // answer log on (filter all)
 }
 
 func (c C19Cell) Name() string {
-	return fmt.Sprintf("c19|%s|longdef=%v|devs=%v|shots=%d|debug=%v|trace=%v", c.Gun, c.LongDef, c.Devs, c.Shots, c.DebugLog, c.Trace)
+	return fmt.Sprintf("c19|%s|longdef=%v|devs=%v|shots=%d|debug=%v|trace=%v", c.Gun, c.LongDef, c.Devs, c.Shots, c.DebugLog, c.Trace) + map[bool]string{true: "|answlog"}[c.AnswLog]
 }
 
 type timeoutErr struct{}
@@ -230,6 +233,11 @@ func (r *c19run) scenario(x *vs.X) func(end, msg string) error {
 	if c.Trace {
 		gconf.HTTPTrace.DumpEnabled, gconf.HTTPTrace.TraceEnabled = true, true
 	}
+	answLog := zap.NewNop()
+	if c.AnswLog {
+		gconf.AnswLog.Enabled, gconf.AnswLog.Filter = true, "all"
+		answLog = zap.New(zapcore.NewCore(zapcore.NewConsoleEncoder(zap.NewDevelopmentEncoderConfig()), zapcore.AddSync(io.Discard), zapcore.DebugLevel))
+	}
 	cc := func(phttp.ClientConfig, string) phttp.Client {
 		if c.Gun == "http2" {
 			// the http2 guns' client: fatal only when the target has no HTTP/2
@@ -239,10 +247,10 @@ func (r *c19run) scenario(x *vs.X) func(end, msg string) error {
 	}
 	newGun := func() (core.Gun, error) {
 		if c.Gun == "scenario" {
-			g := httpscenario.ZvNewGun(cc, gconf)
+			g := httpscenario.ZvNewGunLog(cc, gconf, answLog)
 			return httpscenario.WrapGun(g), nil
 		}
-		g := phttp.NewBaseGun(cc, gconf, nil)
+		g := phttp.NewBaseGun(cc, gconf, answLog)
 		return phttp.WrapGun(g), nil
 	}
 	log := nopLog
@@ -366,6 +374,10 @@ func c19cells(thorough bool) []C19Cell {
 					if long && pos <= per && (a.Conn != "ok" || ai%5 == 0) {
 						// request dumping / tracing switched on: every failure kind and a sample of the answers
 						out = append(out, C19Cell{Gun: gun, LongDef: long, Shots: shots, Devs: map[int]R19{pos: a}, Trace: true})
+					}
+					if long && pos <= per && gun != "http2" {
+						// the answer log switched on: every answer and failure kind passes through the log's dumps
+						out = append(out, C19Cell{Gun: gun, LongDef: long, Shots: shots, Devs: map[int]R19{pos: a}, AnswLog: true})
 					}
 				}
 			}
